@@ -84,6 +84,7 @@ TRANSPARENT_UNARY = (
 _TRANSPARENT = [re.compile(p) for p in TRANSPARENT_UNARY]
 # combinators that `?` looks through (simp_ok / err_of): their call is not an event of its own, so that
 # `x.ok_or(E)?` / `x.map_err(f)?` and the explicit `match` leave the same trace
+IS_VARIANT = re.compile(r"^std::(option::Option::(is_some|is_none)|result::Result::(is_ok|is_err))$")
 COMBINATOR = re.compile(r"^std::(option::Option|result::Result)::(map|and_then|transpose|unwrap_or_default|unwrap_or|expect|unwrap)$")
 PURE_COMBINATOR = re.compile(r"^std::(option::Option::(ok_or|ok_or_else)|result::Result::(map_err|ok))$")
 
@@ -884,6 +885,12 @@ def simp_atom(a):
     if a[0] == "cond":
         e, truth = a[1], a[2]
         if isinstance(e, tuple):
+            if e[0] == "call" and len(e[2]) == 1 and IS_VARIANT.search(e[1]):
+                # `x.is_some()` / `x.is_none()` / `x.is_ok()` / `x.is_err()` are the variant tests a `match` / `if let` / `let else` makes
+                pos = e[1].endswith(("is_some", "is_ok"))
+                opt = "option::Option" in e[1]
+                v = ("Some" if opt else "Ok") if pos == truth else ("None" if opt else "Err")
+                return ("is", strip_refs(e[2][0]), v)
             if e[0] == "un" and e[1] == "Not":
                 return simp_atom(("cond", e[2], not truth))
             if e[0] == "bin" and e[1] in NEG:
